@@ -260,7 +260,7 @@ def ghz(n, kind, rng):
     return "\n".join(lines)
 
 
-def check_shots(ctx, text, label, nshots):
+def check_shots(ctx, text, label, nshots, finding_key=None):
     import stim
     import tsim
     c = tsim.Circuit(text)
@@ -268,26 +268,26 @@ def check_shots(ctx, text, label, nshots):
         sampler = c.compile_sampler(seed=int(ctx.rng.getrandbits(30)))
         shots, prob, bad, f = sample_with_probabilities(sampler, nshots)
     except Exception as e:
-        ctx.violation(f"{label}-raises", f"tsim raised {e!r}", {"text": text})
+        ctx.violation(finding_key or f"{label}-raises", f"tsim raised {e!r}", {"text": text})
         return
     sc = c._stim_circ
     comps = [len(cc.output_indices) for cc in sampler._program.components]
     ctx.count((label, text), bucket=label)
     ctx.hist[f"max-component-outputs<={10 ** math.ceil(math.log10(max(comps + [1]) + 0.5))}"] = ctx.hist.get(f"max-component-outputs<={10 ** math.ceil(math.log10(max(comps + [1]) + 0.5))}", 0) + 1
     if bad:
-        ctx.violation(f"{label}-bernoulli", "a conditional probability used by the sampler is outside [0,1] or nan", {"text": text, "bad": bad[:2]})
+        ctx.violation(finding_key or f"{label}-bernoulli", "a conditional probability used by the sampler is outside [0,1] or nan", {"text": text, "bad": bad[:2]})
     for i in range(shots.shape[0]):
         ok, free, msg = tableau_replay(sc, shots[i])
         if ok is None:
             ctx.hist["skipped-hidden-randomness"] = ctx.hist.get("skipped-hidden-randomness", 0) + 1
             return
         if not ok:
-            ctx.violation(f"{label}-impossible-shot", f"tsim returned a record Stim's tableau semantics forbids: {msg}",
+            ctx.violation(finding_key or f"{label}-impossible-shot", f"tsim returned a record Stim's tableau semantics forbids: {msg}",
                           {"text": text, "shot": shots[i].astype(int).tolist()})
             return
         want = 2.0 ** (-free)
         if abs(prob[i] - want) > 1e-6 * max(want, 1e-12) + 1e-12:
-            ctx.violation(f"{label}-biased", f"the sampler gave a record probability {prob[i]:.6g}; Stim's semantics has {free} free results, i.e. 2^-{free} = {want:.6g}",
+            ctx.violation(finding_key or f"{label}-biased", f"the sampler gave a record probability {prob[i]:.6g}; Stim's semantics has {free} free results, i.e. 2^-{free} = {want:.6g}",
                           {"text": text, "shot": shots[i].astype(int).tolist(), "prob": float(prob[i]), "free": free})
             return
     if len(ctx.samples) < 4:
@@ -360,7 +360,9 @@ def run(ctx: Ctx) -> int:
         for kind in kinds:
             if time.time() > t_end:
                 break
-            check_shots(ctx, ghz(n, kind, rng), f"ghz-{kind}", 6 if quick else 20)
+            # a component with 128 or more fair random outputs underflows float32 (recorded finding, identified per circuit)
+            fk = f"float32-underflow:ghz-xx-{n}" if (kind == "xx" and n >= 128) else None
+            check_shots(ctx, ghz(n, kind, rng), f"ghz-{kind}", 6 if quick else 20, finding_key=fk)
     # QEC memory circuits, noiseless
     for task, d, r in ([("repetition_code:memory", 3, 2), ("surface_code:rotated_memory_z", 3, 2), ("color_code:memory_xyz", 3, 2)] if quick else
                        [("repetition_code:memory", 5, 3), ("surface_code:rotated_memory_z", 3, 3), ("surface_code:rotated_memory_x", 3, 2),
